@@ -2916,13 +2916,20 @@ coap_handle_request_put_block(coap_context_t *context,
           memcmp(lg_srcv->rtag, rtag, rtag_length) != 0)
         continue;
     }
+    if (resource == context->unknown_resource ||
+        resource == context->proxy_uri_resource) {
+      /*
+       * One resource stands for every path it catches: transfers to
+       * different paths are different transfers.
+       */
+      if (resource == lg_srcv->resource &&
+          coap_string_equal(uri_path, lg_srcv->uri_path))
+        break;
+      continue;
+    }
     if (resource == lg_srcv->resource) {
       break;
     }
-    if ((lg_srcv->resource == context->unknown_resource ||
-         resource == context->proxy_uri_resource) &&
-        coap_string_equal(uri_path, lg_srcv->uri_path))
-      break;
   }
 
   if (!lg_srcv && block.num != 0 && session->block_mode & COAP_BLOCK_NOT_RANDOM_BLOCK1) {
